@@ -255,6 +255,7 @@ func (g *storeGen) pickUniverse(n int, big bool) {
 	}
 	seen := map[string]bool{}
 	byUUID := map[string]string{}
+	first := map[string]*triple.Triple{}
 	for tries := 0; len(g.uni) < n && tries < 10*n; tries++ {
 		t, err := triple.New(ns[g.r.intn(len(ns))], ps[g.r.intn(len(ps))], os[g.r.intn(len(os))])
 		if err != nil {
@@ -273,9 +274,14 @@ func (g *storeGen) pickUniverse(n int, big bool) {
 			u := string(t.UUID())
 			id := valueIdentity(t)
 			if prev, ok := byUUID[u]; ok && prev != id {
+				// the model has to predict the collision (one of the listed classes): a K line asks it
+				a := first[u]
+				g.emit(fmt.Sprintf("K %s %s %s %s %s %s", encNode(a.Subject()), encPred(a.Predicate()), encObj(a.Object()),
+					encNode(t.Subject()), encPred(t.Predicate()), encObj(t.Object())), "collide")
 				continue
 			}
 			byUUID[u] = id
+			first[u] = t
 		}
 		g.define(t)
 	}
